@@ -7,7 +7,6 @@ import (
 	"database/sql"
 	"encoding/hex"
 	"encoding/json"
-	"errors"
 	"fmt"
 	"io"
 	"os"
@@ -182,7 +181,7 @@ func ReadAll(fsys afero.Fs, p string) ([]byte, error) {
 			buf.Write(chunk[:n])
 		}
 		if err != nil {
-			if errors.Is(err, io.EOF) {
+			if err == io.EOF { // strictly: an error that merely wraps EOF is a failure, as for io.ReadAll
 				break
 			}
 			_ = f.Close()
@@ -362,7 +361,8 @@ func Scan(drive string, cfg Config, ks *KeySet, keepData bool) (*TapeScan, error
 		tr := tar.NewReader(cr)
 		members := 0
 		for {
-			start := cr.p
+			// Next() first skips the padding of the previous member: members start on block boundaries
+			start := (cr.p + 511) / 512 * 512
 			hdr, err := tr.Next()
 			if err == io.EOF {
 				// end-of-archive marker: two zero blocks consumed by the reader
